@@ -522,7 +522,7 @@ pub fn alphabet(tier: Tier) -> (TreeAlphabet, usize) {
         leaves: vec![A::text("t"), A::comment("c"), A::pi("pi", Some("d"))],
         adjacent_text: true,
     };
-    (al, tier.pick(5, 6))
+    (al, 5)
 }
 
 pub fn cases(tier: Tier) -> Vec<A> {
@@ -542,7 +542,7 @@ pub fn cases(tier: Tier) -> Vec<A> {
     // thorough: one more level with the plain alphabet only (shape coverage)
     if tier == Tier::Thorough {
         let al2 = TreeAlphabet { elements: vec![A::el("", "a"), A::el("urn:x", "b").decl("p", "urn:x").attr("", "k", "1")], leaves: vec![A::text("t")], adjacent_text: true };
-        for k in 7..=8 {
+        for k in 6..=8 {
             for f in forests(&al2, k - 1) {
                 out.push(A::doc(f));
             }
@@ -623,7 +623,7 @@ pub fn run(tier: Tier) -> i32 {
     let (_, n) = alphabet(tier);
     let cov = json!({
         "rule": format!("every labelled ordered tree with <= {} ordinary nodes over 3 element prototypes (plain; 1 namespace node + 1 attribute; 2 namespace nodes + 2 attributes) and leaves text/comment/PI, as unattached tree and under a document node (fragment-style forests included), plus detached attribute / namespace nodes; every node of every tree x every traversal API and all 12 Axis values; distinct = distinct canonical trees", n),
-        "bounds": {"max_ordinary_nodes": n, "thorough_extra": "documents with 7..8 ordinary nodes over 2 element prototypes + text"},
+        "bounds": {"max_ordinary_nodes": n, "thorough_extra": "documents with 6..8 ordinary nodes over 2 element prototypes + text"},
         "explanation": "each API result is compared with the list computed on the abstract tree (walk order indices)",
     });
     ctx.finish(stats, cov, vec!["tree construction through the creation API is trusted to produce the abstract tree (cross-checked by read-back in C04/C20)".into()])
